@@ -259,7 +259,7 @@ def plans_for(chk):
     base = dict(oq.BASE)
     sc = oq.scale()
     if chk.quick:
-        return [("InitPart1", dict(base, K=1, GridKeep=max(1, int(20 * sc)), NQ=int(1500 * sc)))]
+        return [("InitPart1", dict(base, K=1, GridKeepF=max(1, int(35 * sc)), GridKeep=max(1, int(35 * sc)), NQ=int(1200 * sc)))]
     return [("InitPart1", dict(base, K=1, NQ=int(9000 * sc))),
             ("InitPart1", dict(base, K=1, GridKeep=50, NQ=int(9000 * sc))),
             ("InitPart1", dict(base, K=0, NQ=int(4000 * sc), NP=2, NC=3, NG=3))]
@@ -284,10 +284,10 @@ def main(chk):
         for k_, v in sc.items():
             scov["%s/%s" % k_] = scov.get("%s/%s" % k_, 0) + v
     for s1, s2 in itertools.product(oq.STRATS, oq.STRATS):
-        if not chk.violations and not scov.get("%s/%s" % (s1, s2)):
+        if oq.scale() >= 1 and not chk.violations and not scov.get("%s/%s" % (s1, s2)):
             chk.machinery("vacuous: strategy assignment %s/%s never ran on a case with a non-empty collection" % (s1, s2))
     hard = sum(1 for c in cases if c["rows"] and (c["q"]["lim"] != -1 or c["q"]["off"] != -1 or c["q"]["dist"]) and c["q"]["jn"] != "none")
-    if not hard and not chk.violations:
+    if oq.scale() >= 1 and not hard and not chk.violations:
         chk.machinery("vacuous: no LIMIT/OFFSET/DISTINCT query over a join with a non-empty result")
     samples = [dict(ds=c["ds"], q=c["q"], rows=c["rows"], graph_of_first=(c["pgraph"] if c["q"]["root"] == "P" else c["cgraph"])[c["rows"][0][0] - 1])
                for c in cases if c["rows"] and c["q"]["lim"] != -1 and c["q"]["jn"] != "none"][:3]
